@@ -341,6 +341,7 @@ func (r *Runner) note(msg string, st *Step) {
 func (r *Runner) Run() {
 	spec := r.Spec
 	r.J.put(&Rec{K: "spec", Spec: spec})
+	heapAllocs() // initialise the runtime's metrics tables here, on the main goroutine
 	if spec.Prof == "C06" {
 		debug.SetGCPercent(-1) // collections happen only when the simulator schedules one
 	}
@@ -905,9 +906,20 @@ func (r *Runner) decodeOnce(op *OpSpec, st *Step, sd *model.StructDef, m *messag
 		}
 		r.J.put(&Rec{K: "b", Slot: st.Slot, Op: st.Op, Msg: m.desc, N: len(in)}) // so that a dying child names the input in flight
 	}
-	a0, s0 := heapAllocs(), verifsim.TaskSteps()
+	// (runtime/metrics only where its numbers are judged: C05, single task. Its lazily initialised tables would
+	// otherwise be touched by several tasks in harness mode and show up as a race inside the runtime.)
+	measure := r.Spec.Prof == "C05"
+	var a0 uint64
+	if measure {
+		a0 = heapAllocs()
+	}
+	s0 := verifsim.TaskSteps()
 	n, err, pc, pt := callDec(in, dst.Interface())
-	steps, alloc := verifsim.TaskSteps()-s0, heapAllocs()-a0
+	steps := verifsim.TaskSteps() - s0
+	var alloc uint64
+	if measure {
+		alloc = heapAllocs() - a0
+	}
 	res.N, res.Steps, res.Alloc = n, steps, alloc
 	switch {
 	case pc != "":
